@@ -14,22 +14,23 @@ class SrcError(Exception):
 
 
 class FailingTable(object):
-    """header ('k','v') + n rows with descending keys; raises at position `fail` (0 = header, r+1 = data row r)."""
-    def __init__(self, n, fail):
-        self.n, self.fail = n, fail
+    """header ('v','k') + n rows whose key order is the reverse of their natural (whole-row) order; raises at position `fail`
+    (0 = header, r+1 = data row r).  `bad` = index of a row holding a cell that cannot be pickled (the chunk dump fails)."""
+    def __init__(self, n, fail, bad=None):
+        self.n, self.fail, self.bad = n, fail, bad
 
     def __iter__(self):
         if self.fail == 0:
             raise SrcError('header')
-        yield ('k', 'v')
+        yield ('v', 'k')
         for i in range(self.n):
             if self.fail is not None and self.fail == i + 1:
                 raise SrcError('row %d' % i)
-            yield (self.n - i, 'r%d' % i)
+            yield ('r%d' % i if i != self.bad else (lambda: None), self.n - i)
 
 
 def expected_rows(n):
-    return [('k', 'v')] + sorted([(n - i, 'r%d' % i) for i in range(n)])
+    return [('v', 'k')] + sorted([('r%d' % i, n - i) for i in range(n)], key=lambda r: r[1])
 
 
 def random_history(rng, maxlen=14, maxiters=3):
@@ -105,7 +106,7 @@ class C18(Prop):
             bs = rng.choice([None, 1, 2, 2, 3, 5])
             cache = rng.random() < 0.6
             fail = rng.choice([None, None, None] + list(range(0, n + 1)))
-            yield Case('tf_run', (n, bs, cache, fail, random_history(rng)))
+            yield Case('tf_run', (n, bs, cache, fail, random_history(rng)), {'rev': rng.random() < 0.4})
         for _ in range(nrand // 3):
             n = rng.choice([0, 1, 2, 3, 5])
             yield Case('df_hist', (n, random_history(rng)))
@@ -129,6 +130,8 @@ class C18(Prop):
                  (2, 0), (2, 1), (2, 2), (2, 4), (3,))
         yield Case('tf_run', (4, 2, True, None, again))
         yield Case('tf_run', (3, 1, True, None, again))
+        yield Case('tf_run', (4, 2, True, None, again), {'rev': True})
+        yield Case('tf_run', (5, 1, True, None, again), {'rev': True})
         # fromdicts(<generator>): a lagging iterator re-reads an old record of the spill file, then the leader draws a new row
         lag = ((0,), (0,), (1, 0), (1, 0), (1, 0), (1, 0), (1, 1), (1, 1), (1, 0), (1, 1), (1, 1), (1, 1), (1, 1), (1, 1), (0,),
                (1, 2), (1, 2), (1, 2), (1, 2), (1, 2), (1, 2), (2, 0), (2, 1), (2, 2), (3,))
@@ -138,7 +141,7 @@ class C18(Prop):
             for n, bs in ((3, 2), (5, 2), (4, 1), (2, 2), (2, 5)):
                 for cache in (True, False):
                     for fail in (None, 2):
-                        yield Case('tf_run', (n, bs, cache, fail, ops))
+                        yield Case('tf_run', (n, bs, cache, fail, ops), {'rev': (n + bs) % 2 == 0 and fail is None})
         if tier == 'thorough':
             for ln in range(2, 9):
                 for ops in all_histories(ln):
@@ -153,6 +156,11 @@ class C18(Prop):
                 for ops in all_histories(ln, 3):
                     yield Case('tf_run', (3, 2, True, None, ops))
         # sort-backed operators
+        # the chunk dump itself fails (a cell that cannot be pickled): the half-written chunk file must not stay behind
+        for n, bs in ((3, 2), (5, 2), (4, 1), (6, 3), (2, 5)):
+            for bad in range(n):
+                for cache in (True, False):
+                    yield Case('dump_fail', (n, bs, bad, cache))
         names = [e['name'] for e in catalogue.entries() if 'sorted' in e['flags']]
         reps = 1 if tier == 'quick' else 5
         for nm in names:
@@ -167,6 +175,8 @@ class C18(Prop):
             return Case('df_run', tuple((o, l) for o, l in zip(ops, lasts)), dict(case.meta, orig=[n, [list(o) for o in ops]]))
         if case.op == 'op_leak':
             return Case('const_true', case.arg, dict(case.meta, orig='op_leak'))
+        if case.op == 'dump_fail':
+            return Case('const_true', ('dump_fail',) + tuple(case.arg), dict(case.meta, orig='dump_fail'))
         return case
 
     # ---- implementation -------------------------------------------------------------------------------------------------
@@ -187,6 +197,8 @@ class C18(Prop):
                 files, lasts, released = self._df_impl(n, tuple(tuple(o) for o in ops))
                 return ('tu', (('li', tuple(codec.t_bool(f) for f in files)), codec.t_bool(released)))
             if case.op == 'const_true':
+                if case.arg[0] == 'dump_fail':
+                    return codec.t_bool(self._dump_fail(*case.arg[1:]))
                 return codec.t_bool(self._op_leak(*case.arg))
         except Exception as e:   # noqa
             return obs_exc(e)
@@ -195,10 +207,13 @@ class C18(Prop):
     def _tf_impl(self, case):
         import petl as etl
         n, bs, cache, fail, ops = case.arg
+        rev = bool(case.meta.get('rev'))
         exp = expected_rows(n)
+        if rev:
+            exp = exp[:1] + exp[:0:-1]
         rows_ok = True
         with tempfile.TemporaryDirectory(dir='/var/tmp') as td:
-            view = etl.sort(FailingTable(n, fail), 'k', buffersize=bs, cache=cache, tempdir=td)
+            view = etl.sort(FailingTable(n, fail), 'k', reverse=rev, buffersize=bs, cache=cache, tempdir=td)
             its = []
             got = []
             obs = []
@@ -291,6 +306,22 @@ class C18(Prop):
         self._df_ok[(n, ops)] = ok
         return files, lasts, released
 
+    def _dump_fail(self, n, bs, bad, cache):
+        import petl as etl
+        with tempfile.TemporaryDirectory(dir='/var/tmp') as td:
+            view = etl.sort(FailingTable(n, None, bad), 'k', buffersize=bs, cache=cache, tempdir=td)
+            for _ in range(2):
+                it = iter(view)
+                try:
+                    for _r in it:
+                        pass
+                except Exception:   # the dump error (or nothing, when everything fits in memory)
+                    pass
+                del it
+            view = None
+            gc.collect()
+            return len(os.listdir(td)) == 0
+
     def _op_leak(self, name, seed, k, view_first):
         import petl as etl
         import petl.config
@@ -336,14 +367,14 @@ class C18(Prop):
             self._oks = {}
         if len(self._oks) > 50000:
             self._oks.clear()
-        self._oks[case.key()] = ok
+        self._oks[case.key() + repr(case.meta.get('rev'))] = ok
 
     # ---- the property on the implementation's own behaviour ---------------------------------------------------------------
     def spec(self, case, impl_obs, model_obs):
         if case.op == 'const_true':
             return impl_obs == codec.t_bool(True)
         if case.op == 'tf_run':
-            ok = getattr(self, '_oks', {}).get(case.key())
+            ok = getattr(self, '_oks', {}).get(case.key() + repr(case.meta.get('rev')))
             if ok is None:
                 return None
             if not ok:
@@ -379,10 +410,14 @@ class C18(Prop):
                 ops = tuple(tuple(o) for o in ops)
                 lasts = self._df_impl(n, ops)[1]
                 return case.tree == Case('df_run', tuple((o, l) for o, l in zip(ops, lasts))).tree
-            if case.op in ('df_hist', 'op_leak'):
+            if case.op in ('df_hist', 'op_leak', 'dump_fail'):
                 return True
             if case.op == 'const_true':
                 nm = case.arg[0]
+                if nm == 'dump_fail':
+                    n, bs, bad, cache = case.arg[1:]
+                    return isinstance(n, int) and 0 <= bad < n <= 50 and isinstance(bs, int) and bs >= 1
+
                 return any(e['name'] == nm for e in catalogue.entries()) and isinstance(case.arg[2], int)
             return False
         except Exception:
